@@ -52,12 +52,13 @@ type adapterRunner struct {
 	mem  types.AdaptedSizedLRUCache
 	db   types.Persister
 	dir  string
-	vals map[string][]byte // every key ever put ↦ its (immutable) value
+	vals map[string][]byte // every key put and not removed since ↦ its (immutable) value
+	ever map[string]bool   // every key ever used
 }
 
 func (adapterComp) NewRunner(begin string) Runner {
 	kv := parseKV(strings.Fields(begin))
-	r := &adapterRunner{vals: map[string][]byte{}}
+	r := &adapterRunner{vals: map[string][]byte{}, ever: map[string]bool{}}
 	mem, err := capacity.NewCapacityLRU(int(atou(kv["cap"])), int64(atou(kv["bytes"])))
 	if err != nil {
 		panic(err)
@@ -94,10 +95,12 @@ func (r *adapterRunner) dump() string {
 	}
 	m := map[string][]byte{}
 	r.db.RangeKeys(func(k, v []byte) bool { m[string(k)] = v; return true })
-	// keys still in the persister's pending batch are not visited by RangeKeys: read them back
-	for k := range r.vals {
+	// RangeKeys shows the flushed state only: overlay the persister's pending batch (puts and removals) by reading back
+	for k := range r.ever {
 		if v, err := r.db.Get([]byte(k)); err == nil {
 			m[k] = v
+		} else {
+			delete(m, k)
 		}
 	}
 	names := make([]string, 0, len(m))
@@ -137,40 +140,88 @@ func (r *adapterRunner) retrievable(where string) {
 	}
 }
 
+// doPut runs Put (or the Put inside HasOrAdd) and checks the "leaves memory only via the persister" and flag clauses
+func (r *adapterRunner) doPut(what string, k, v []byte, sz int, call func() bool) bool {
+	before := map[string]bool{}
+	for _, x := range r.mem.Keys() {
+		before[x.(string)] = true
+	}
+	spilled := call()
+	after := map[string]bool{}
+	for _, x := range r.mem.Keys() {
+		after[x.(string)] = true
+	}
+	left := 0
+	for b := range before {
+		if !after[b] {
+			left++
+			if _, err := r.db.Get([]byte(b)); err != nil {
+				r.add("C17", "left-memory-unpersisted", fmt.Sprintf("after %s %s: key %s left the memory tier without being written to the persister", what, hx(k), hx([]byte(b))))
+			}
+		}
+	}
+	if spilled != (left > 0) {
+		r.add("C17", "spilled-flag", fmt.Sprintf("after %s %s: returned %v, %d entries left the memory tier", what, hx(k), spilled, left))
+	}
+	if left > 0 {
+		r.tag("spill")
+	}
+	return spilled
+}
+
 func (r *adapterRunner) Exec(line string) string {
 	t := strings.Fields(line)
-	k := unhx(t[1])
+	var k []byte
+	if len(t) > 1 {
+		k = unhx(t[1])
+		r.ever[string(k)] = true
+	}
 	switch t[0] {
 	case "put":
 		v := unhx(t[2])
 		sz, _ := strconv.Atoi(t[3])
-		before := map[string]bool{}
-		for _, x := range r.mem.Keys() {
-			before[x.(string)] = true
-		}
-		spilled := r.a.Put(k, &serVal{v}, sz)
+		spilled := r.doPut("put", k, v, sz, func() bool { return r.a.Put(k, &serVal{v}, sz) })
 		r.vals[string(k)] = v
-		after := map[string]bool{}
-		for _, x := range r.mem.Keys() {
-			after[x.(string)] = true
-		}
-		left := 0
-		for b := range before {
-			if !after[b] {
-				left++
-				if _, err := r.db.Get([]byte(b)); err != nil {
-					r.add("C17", "left-memory-unpersisted", fmt.Sprintf("after put %s: key %s left the memory tier without being written to the persister", hx(k), hx([]byte(b))))
-				}
-			}
-		}
-		if spilled != (left > 0) {
-			r.add("C17", "spilled-flag", fmt.Sprintf("after put %s: Put returned %v, %d entries left the memory tier", hx(k), spilled, left))
-		}
-		if left > 0 {
-			r.tag("spill")
-		}
 		r.retrievable("after put " + hx(k))
 		return b01(spilled) + " | " + r.dump()
+	case "hoa":
+		v := unhx(t[2])
+		sz, _ := strconv.Atoi(t[3])
+		was := r.a.Has(k)
+		var has bool
+		spilled := r.doPut("hasOrAdd", k, v, sz, func() bool {
+			var sp bool
+			has, sp = r.a.HasOrAdd(k, &serVal{v}, sz)
+			return sp
+		})
+		if has != was {
+			r.add("C17", "hasoradd-flag", fmt.Sprintf("HasOrAdd %s: has=%v but Has said %v just before", hx(k), has, was))
+		}
+		if !was {
+			r.vals[string(k)] = v
+			r.tag("hoa-insert")
+		}
+		r.retrievable("after hasOrAdd " + hx(k))
+		return b01(has) + b01(spilled) + " | " + r.dump()
+	case "rm":
+		r.a.Remove(k)
+		delete(r.vals, string(k))
+		r.retrievable("after remove " + hx(k))
+		return r.dump()
+	case "clear":
+		r.a.Clear()
+		// entries that lived only in the memory tier are gone by design: no obligation for them any more
+		for x := range r.vals {
+			if _, err := r.db.Get([]byte(x)); err != nil {
+				delete(r.vals, x)
+			}
+		}
+		r.retrievable("after clear")
+		return r.dump()
+	case "len":
+		return strconv.Itoa(r.a.Len())
+	case "keys":
+		return sortedHexList(r.a.Keys())
 	case "get":
 		v, ok := r.a.Get(k)
 		if want, known := r.vals[string(k)]; known && (!ok || !bytes.Equal(asBytes(v), want)) {
@@ -207,7 +258,30 @@ func (adapterComp) Gen(rng *rand.Rand, tier string) [][]string {
 		nkeys := 3 + rng.Intn(6)
 		for s := 0; s < steps; s++ {
 			k := []byte{byte(0x20 + rng.Intn(nkeys))}
-			switch x := rng.Intn(100); {
+			// a third of the histories is Put/Get/Has/Peek only (the property's own vocabulary); the others also use the
+			// adapter's remaining entry points (HasOrAdd = Has+Put, Remove, Clear, Len, Keys)
+			x := rng.Intn(100)
+			if i%3 != 0 && x >= 45 && x < 60 {
+				switch y := rng.Intn(100); {
+				case y < 55:
+					h = append(h, fmt.Sprintf("hoa %s %02xee %d", hx(k), k[0], pick(rng, 0, 1, 5, 10, 10, 20, 30, 61, 1000)))
+				case y < 75:
+					h = append(h, "rm "+hx(k))
+				case y < 80:
+					h = append(h, "clear")
+				case y < 90:
+					h = append(h, "len")
+				default:
+					// Keys() asks the persister's RangeKeys, which (for LevelDB) shows the flushed state only: compared on memorydb
+					if db == "mem" {
+						h = append(h, "keys")
+					} else {
+						h = append(h, "len")
+					}
+				}
+				continue
+			}
+			switch {
 			case x < 60:
 				// each key is bound to one immutable value; sizes vary between puts (re-puts with a larger size)
 				h = append(h, fmt.Sprintf("put %s %02xee %d", hx(k), k[0], pick(rng, 0, 1, 5, 10, 10, 20, 30, 61, 1000)))
